@@ -41,6 +41,13 @@ func (famSanitize) Gen(r *rand.Rand, n int, _ map[string]string) []any {
 				k += pick(r, []string{"a", "b", ".", "-", "_", "9", "Z"})
 			}
 		}
+		if r.Intn(8) == 0 {
+			// names that differ from a reserved word of the query language by their case only (they are ordinary names),
+			// or that become one once sanitised
+			k = pick(r, []string{"Max", "IP", "Rate", "Count", "Duration", "Keep", "By", "Label.Format", "ON", "Json", "MAX", "Sum", "Vector", "Bytes", "oR", "Without",
+				"Line-Format", "Count.Over.Time", "Unwrap", "Bool", "Offset", "Topk", "Drop", "Distinct", "Pattern", "Logfmt", "IGNORING", "Group-Left", "max", "by", "label.format"})
+			ln = len(k)
+		}
 		for len(k) < ln {
 			if r.Intn(5) == 0 {
 				k += string([]byte{byte(r.Intn(256))})
@@ -83,6 +90,8 @@ func (famSanitize) Exec(scn int, raw json.RawMessage, t *Trace, _ map[string]str
 		return nil
 	}
 	if _, err := logql.Parse(q, logql.ParseOptions{}); err != nil {
+		// (the specification knows which names are reserved words; any other name must be accepted)
+		t.Ev(scn, "Selected", F{"label": B(out), "parsed": false, "selected": false, "others": -1})
 		return nil
 	}
 	c1 := simpleCtr("c1", "c1", []Frame{{Typ: 1, TS: []int{1700000001, 0}, Msg: B("one")}})
@@ -96,7 +105,7 @@ func (famSanitize) Exec(scn int, raw json.RawMessage, t *Trace, _ map[string]str
 	eng := dockerEngine(newFakeDocker(nil, scn, ctrs))
 	r := evalWithWatchdog(eng, q, logqlengine.EvalParams{Start: tsOf(Base.Add(-10 * time.Second)), End: tsOf(Base.Add(100 * time.Second)), Limit: -1}, 20*time.Second)
 	if r.Err != nil || r.Panic != nil || r.Hang {
-		t.Ev(scn, "Selected", F{"label": B(out), "selected": false, "others": -1})
+		t.Ev(scn, "Selected", F{"label": B(out), "parsed": true, "selected": false, "others": -1})
 		return nil
 	}
 	sel, others := false, 0
@@ -109,7 +118,7 @@ func (famSanitize) Exec(scn int, raw json.RawMessage, t *Trace, _ map[string]str
 			}
 		}
 	}
-	t.Ev(scn, "Selected", F{"label": B(out), "selected": sel, "others": others})
+	t.Ev(scn, "Selected", F{"label": B(out), "parsed": true, "selected": sel, "others": others})
 	// the same key as a JSON field extracted without a field list: `{} | json` must expose it under the sanitised name
 	// (keys that a JSON text cannot carry verbatim - invalid UTF-8, control bytes - are left out)
 	if utf8.ValidString(key) && !strings.ContainsAny(key, "\x00\x01\x02\x03\x04\x05\x06\x07\x08\t\n\x0b\x0c\r\x0e\x0f\x10\x11\x12\x13\x14\x15\x16\x17\x18\x19\x1a\x1b\x1c\x1d\x1e\x1f\x7f") {
